@@ -60,5 +60,6 @@ def run(chk: core.Check):
         cases.append((d, ev.guided_path(rng, d)))
     rng.shuffle(cases)
     chk.exhaustive = True
+    cases = c01.subsample(chk, cases)
     absorb02(chk, core.pmap(ev.compare_chunk, [(c, opts) for c in core.chunked(cases, 256)]))
     return chk
